@@ -335,7 +335,7 @@ def store_map(s):
 
 
 def idkey(s, m):
-    return Val.strv(s.fs("_id", m))
+    return s.f("_id", m)      # a str by T-schema: the Val term itself is the registry key
 
 
 def reg_sub(s, n):
